@@ -111,6 +111,8 @@ finding(["C16"], "L3", "tensor.Copy@copyDense(%dt, %ts) ⊨ %ts.DataOrder().HasS
 finding(["C16"], "L4", "tensor.ToMat64@mat.NewDense( ?$t.DataOrder().IsColMajor()", "ToMat64 hands column-major storage to the row-major mat.Dense", "without a test of $t.DataOrder().IsColMajor()", 18)
 
 FIXED = [
+ {"property":"C04","commit":"0b11727","rule":"S12","key":"tensor.(*AP).S#marker","what":"fixed: property=C04 0b11727 AP.S flagged a slice along the outermost axis of a lazily transposed pattern contiguous; the view does not carry the pending transpose, so RequiresIterator() was false: a(3,4).T(); v := a[0:2]; Add(v, 100, UseUnsafe()) wrote 10 parent elements, 4 of them outside the view (DESIGN finding 51)"},
+ {"property":"C02","commit":"0b11727","rule":"S12","key":"tensor.(*AP).S#marker","what":"fixed: property=C02 0b11727 same defect seen from C02: the view of a lazily transposed tensor reported a contiguous layout although its elements are strided (DESIGN finding 51)"},
  {"property":"C19","commit":"0b6a800","rule":"RP","key":"tensor.(*Dense).Norm#AP($r)","what":"fixed: property=C19 0b6a800 Norm put the operand's access pattern back only on the success path: t.Norm(UnorderedNorm()) on a tensor whose engine has no Dot returned the error and left t with shape (0) (DESIGN finding 49)"},
  {"property":"C09","commit":"9516b10","rule":"RP","key":"tensor.(StdEng).Outer#Reshape($a)","what":"fixed: property=C09 9516b10 Outer into a column-major result reshaped a to (m,1) and returned without undoing it when b could not be reshaped: Outer(a, b[0:6:2], WithReuse(colMajor)) returned an error and left a with shape (3,1) (DESIGN finding 50)"},
  {"property":"C16","commit":"af2eeb1","rule":"LD","key":"tensor.(StdEng).MatMul[26 of the 32 combinations of operand/result data order and lazy transposition]","what":"fixed: property=C16 af2eeb1 StdEng.MatMul took its BLAS transposition flags from the lazy-transpose state only and swapped the operands when both were column-major instead of when the result is: a column-major A times a row-major B (or any result whose order differs from the operands', or two column-major operands of which one is lazily transposed) multiplied the wrong matrices - silently for square operands, BLAS panic 'bad leading dimension' otherwise (DESIGN finding 47)"},
